@@ -54,17 +54,16 @@ theorem szItems_toks : ∀ (b : List Item), szItems b = (itemsToks b).length ∧
 
 theorem szElems_toks : ∀ (es : List Elem), szElems es + es.length ≤ 2 * (elemsToks es).length
   | [] => by simp [szElems, elemsToks]
-  | e :: r => by
+  | .plain i :: r => by
     have ih := szElems_toks r
-    cases e with
-    | plain i =>
-      have hp := szItem_pos i
-      simp only [szElems, szElem, elemsToks, elemToks, List.length_append, List.length_cons, szItem_toks i] at hp ⊢
-      omega
-    | frame c b =>
-      have hb := szItems_toks b
-      simp only [szElems, szElem, elemsToks, elemToks, List.length_append, List.length_cons, List.length_nil] at ⊢
-      omega
+    have hp := szItem_pos i
+    simp only [szElems, szElem, elemsToks, elemToks, List.length_append, List.length_cons, szItem_toks i] at hp ⊢
+    omega
+  | .frame c b :: r => by
+    have ih := szElems_toks r
+    have hb := szElems_toks b
+    simp only [szElems, szElem, elemsToks, elemToks, List.length_append, List.length_cons, List.length_nil] at ⊢
+    omega
 
 theorem szBlocks_toks : ∀ (d : List Block), szBlocks d ≤ 2 * (blocksToks d).length + d.length
   | [] => by simp [szBlocks, blocksToks]
@@ -101,11 +100,20 @@ def scalarOnce : List WLoop → Prop
   | [] => True
   | l :: r => (isScalars l.category = true → ∀ l' ∈ r, isScalars l'.category = false) ∧ scalarOnce r
 
-/-- save frames: valid, pairwise different codes; loops as above -/
-def framesN (o : Opts) : List WContainer → List Str → Prop
-  | [], _ => True
-  | .mk code _ loops :: r, fseen =>
-    wfCode code = true ∧ fseen.contains (o.norm code) = false ∧ loopsN o loops [] ∧ scalarOnce loops ∧ framesN o r (o.norm code :: fseen)
+/-- the code of a walked container -/
+def wcode : WContainer → Str | .mk code _ _ => code
+
+mutual
+  /-- a save frame: valid code; its own save frames and loops as below; save frames inside a save frame ask for a parser whose
+      max_frame_depth is not 1 -/
+  def frameN (o : Opts) : WContainer → Prop
+    | .mk code frames loops =>
+      wfCode code = true ∧ (frames = [] ∨ o.maxFrameDepth ≠ 1) ∧ framesN o frames [] ∧ loopsN o loops [] ∧ scalarOnce loops
+  /-- save frames: valid, pairwise different codes; loops as above -/
+  def framesN (o : Opts) : List WContainer → List Str → Prop
+    | [], _ => True
+    | k :: r, fseen => frameN o k ∧ fseen.contains (o.norm (wcode k)) = false ∧ framesN o r (o.norm (wcode k) :: fseen)
+end
 
 /-- data blocks: valid, pairwise different codes; frames and loops as above -/
 def blocksN (o : Opts) : List WContainer → List Str → Prop
@@ -197,34 +205,50 @@ theorem loops_wf (o : Opts) : ∀ (loops : List WLoop) (its : List Item) (seen :
         Bool.not_false, Bool.true_and, Bool.and_eq_true, Bool.not_eq_true', List.isEmpty_eq_false_iff]
       exact ⟨⟨h1, hne⟩, ih its' _ hrel hr⟩
 
-theorem elems_plain_wf (o : Opts) (fseen : List Str) : ∀ (its : List Item) (seen : List Str),
-    wfElems o (its.map Elem.plain) seen fseen = wfItems o its seen := by
-  intro its
-  induction its with
-  | nil => intro _; rfl
-  | cons i r ih =>
-    intro seen
-    simp only [List.map_cons, wfElems]
-    rw [ih]
-    exact (wfItems_cons o i r seen).symm
+theorem elems_plain_wf (o : Opts) (fseen : List Str) (its : List Item) (seen : List Str) :
+    wfElems o (its.map Elem.plain) seen fseen = wfItems o its seen :=
+  wfElems_plains o its seen fseen
+
+theorem noFrames_of_rel (o : Opts) (es : List Elem) (its : List Item) (h : FramesRel o [] es) :
+    noFrames (es ++ its.map Elem.plain) = true := by
+  simp only [FramesRel] at h
+  subst h
+  simpa using noFrames_plains its
+
+mutual
+theorem frame_wf (o : Opts) : ∀ (k : WContainer) (e : Elem), FrameRel o k e → frameN o k →
+    ∃ code b, e = .frame code b ∧ code = wcode k ∧ wfCode code = true ∧ wfElems o b [] [] = true
+      ∧ (noFrames b || o.maxFrameDepth != 1) = true
+  | .mk code frames loops, e, h, hn => by
+    simp only [FrameRel] at h
+    obtain ⟨es, its, hfr, hlr, rfl⟩ := h
+    simp only [frameN] at hn
+    obtain ⟨h1, hdeep, h3, h4, _⟩ := hn
+    refine ⟨code, _, rfl, rfl, h1, ?_, ?_⟩
+    · exact frames_wf o frames es [] _ [] hfr h3 (fun fseen' => by rw [elems_plain_wf]; exact loops_wf o loops its [] hlr h4)
+    · rcases hdeep with h | h
+      · subst h
+        rw [noFrames_of_rel o es its hfr]; rfl
+      · simp [h]
 
 theorem frames_wf (o : Opts) : ∀ (frames : List WContainer) (es : List Elem) (fseen : List Str) (tail : List Elem) (seen : List Str),
     FramesRel o frames es → framesN o frames fseen → (∀ fseen', wfElems o tail seen fseen' = true) →
-    wfElems o (es ++ tail) seen fseen = true := by
-  intro frames
-  induction frames with
-  | nil =>
-    intro es fseen tail seen h _ ht
+    wfElems o (es ++ tail) seen fseen = true
+  | [], es, fseen, tail, seen, h, _, ht => by
     simp only [FramesRel] at h
     subst h
     exact ht fseen
-  | cons k r ih =>
-    intro es fseen tail seen h hn ht
-    obtain ⟨code, loops, its, es', rfl, hrel, rfl, hrest⟩ := h
+  | k :: r, es, fseen, tail, seen, h, hn, ht => by
+    simp only [FramesRel] at h
+    obtain ⟨e, es', hrel, rfl, hrest⟩ := h
     simp only [framesN] at hn
-    obtain ⟨h1, h2, h3, _, h5⟩ := hn
-    simp only [List.cons_append, wfElems, h1, h2, loops_wf o loops its [] hrel h3, Bool.not_false, Bool.and_self, Bool.true_and]
-    exact ih es' _ tail seen hrest h5 ht
+    obtain ⟨hk, h2, h5⟩ := hn
+    obtain ⟨code, b, rfl, hc, h1, hwb, hdeep⟩ := frame_wf o k e hrel hk
+    subst hc
+    rw [List.cons_append, wfElems_frame]
+    simp only [h1, h2, hwb, hdeep, Bool.not_false, Bool.and_self, Bool.true_and]
+    exact frames_wf o r es' _ tail seen hrest h5 ht
+end
 
 theorem blocks_wf (o : Opts) : ∀ (ks : List WContainer) (d : List Block) (bseen : List Str), All2 (BlockRel o) ks d → blocksN o ks bseen →
     wfBlocks o d bseen = true := by
@@ -250,8 +274,29 @@ def backLoop (l : WLoop) (r : Loop) : Prop :=
     r.category = some [] ∧ r.names = (l.packets.headD []).map (·.1) ∧ ∃ rv, r.packets = [rv] ∧ backVs ((l.packets.headD []).map (·.2)) rv
   else r.category = none ∧ r.names = l.header ∧ All2 (fun p rv => backVs (p.map (·.2)) rv) l.packets r.packets
 
-def backFrame (k : WContainer) (r : Container) : Prop :=
-  ∃ code loops rl, k = .mk code [] loops ∧ r = Container.mk code [] rl ∧ All2 backLoop loops rl
+mutual
+  /-- the save frame read back: same code, its save frames and its loops in the order written -/
+  def backFrame : WContainer → Container → Prop
+    | .mk code frames loops, r => ∃ rf rl, r = Container.mk code rf rl ∧ backFrames frames rf ∧ All2 backLoop loops rl
+  def backFrames : List WContainer → List Container → Prop
+    | [], rs => rs = []
+    | k :: ks, rs => ∃ r rs', rs = r :: rs' ∧ backFrame k r ∧ backFrames ks rs'
+end
+
+theorem backFrames_all2 : ∀ (ks : List WContainer) (rs : List Container), backFrames ks rs ↔ All2 backFrame ks rs
+  | [], rs => by
+    simp only [backFrames]
+    constructor
+    · rintro rfl; exact All2.nil
+    · intro h; cases h; rfl
+  | k :: ks, rs => by
+    simp only [backFrames]
+    constructor
+    · rintro ⟨r, rs', rfl, h1, h2⟩
+      exact All2.cons h1 ((backFrames_all2 ks rs').mp h2)
+    · intro h
+      cases h with
+      | cons h1 h2 => exact ⟨_, _, rfl, h1, (backFrames_all2 ks _).mpr h2⟩
 
 /-- the data block read back: same code, the save frames and the loops in the order written -/
 def backBlock (k : WContainer) (r : Container) : Prop :=
@@ -399,39 +444,50 @@ theorem loops_denote (o : Opts) : ∀ (loops : List WLoop) (its : List Item) (ac
       · simp only [backLoop, hs, Bool.false_eq_true, if_false]
         exact ⟨trivial, trivial, all2_back o _ _ hp⟩
 
-theorem denoteElems_plain (dia : Dialect) (nk : Str → Str) : ∀ (its : List Item) (fs : List Container) (ls : List Loop),
-    denoteElems dia nk (its.map Elem.plain) fs ls = (fs, denoteItems dia nk its ls) := by
-  intro its
-  induction its with
-  | nil => intro fs ls; rfl
-  | cons i r ih =>
-    intro fs ls
-    simp only [List.map_cons, denoteElems]
-    rw [ih, ← denoteItems_cons]
+theorem denoteElems_plain (dia : Dialect) (nk : Str → Str) (its : List Item) (fs : List Container) (ls : List Loop) :
+    denoteElems dia nk (its.map Elem.plain) fs ls = (fs, denoteItems dia nk its ls) :=
+  Spec.Grammar.denoteElems_plains dia nk its fs ls
+
+mutual
+theorem frame_denote (o : Opts) : ∀ (k : WContainer) (e : Elem), FrameRel o k e → frameN o k →
+    ∃ r, backFrame k r ∧ ∀ (fs : List Container) (ls : List Loop), denoteElem o.dia o.normKey e fs ls = (fs ++ [r], ls)
+  | .mk code frames loops, e, h, hn => by
+    simp only [FrameRel] at h
+    obtain ⟨es, its, hfr, hlr, rfl⟩ := h
+    simp only [frameN] at hn
+    obtain ⟨_, _, h3, h4, h5⟩ := hn
+    obtain ⟨rf, hrf, hden⟩ := frames_denote o frames es [] hfr h3
+    obtain ⟨rl, hrl, hbl⟩ := loops_denote o loops its [] [] (by intro l hl; cases hl) h5 h4 hlr
+    have hbody : denoteElems o.dia o.normKey (es ++ its.map Elem.plain) [] [] = (rf, rl) := by
+      rw [hden, denoteElems_plain, hrl]; simp
+    refine ⟨Container.mk code rf rl, ?_, ?_⟩
+    · simp only [backFrame]
+      exact ⟨rf, rl, rfl, (backFrames_all2 _ _).mpr hrf, hbl⟩
+    · intro fs ls
+      simp only [denoteElem, hbody]
 
 theorem frames_denote (o : Opts) : ∀ (frames : List WContainer) (es : List Elem) (fseen : List Str),
     FramesRel o frames es → framesN o frames fseen →
     ∃ rf, All2 backFrame frames rf ∧ ∀ (tail : List Elem) (fs : List Container) (ls : List Loop),
-      denoteElems o.dia o.normKey (es ++ tail) fs ls = denoteElems o.dia o.normKey tail (fs ++ rf) ls := by
-  intro frames
-  induction frames with
-  | nil =>
-    intro es fseen h _
+      denoteElems o.dia o.normKey (es ++ tail) fs ls = denoteElems o.dia o.normKey tail (fs ++ rf) ls
+  | [], es, fseen, h, _ => by
     simp only [FramesRel] at h
     subst h
     exact ⟨[], All2.nil, fun tail fs ls => by simp⟩
-  | cons k r ih =>
-    intro es fseen h hn
-    obtain ⟨code, loops, its, es', rfl, hrel, rfl, hrest⟩ := h
+  | k :: r, es, fseen, h, hn => by
+    simp only [FramesRel] at h
+    obtain ⟨e, es', hrel, rfl, hrest⟩ := h
     simp only [framesN] at hn
-    obtain ⟨_, _, h3, h4, h5⟩ := hn
-    obtain ⟨rl, hrl, hb⟩ := loops_denote o loops its [] [] (by intro l hl; cases hl) h4 h3 hrel
-    obtain ⟨rf, hrf, hden⟩ := ih es' _ hrest h5
-    refine ⟨Container.mk code [] rl :: rf, All2.cons ⟨code, loops, rl, rfl, rfl, hb⟩ hrf, ?_⟩
+    obtain ⟨hk, _, h5⟩ := hn
+    obtain ⟨r0, hb, hd0⟩ := frame_denote o k e hrel hk
+    obtain ⟨rf, hrf, hden⟩ := frames_denote o r es' _ hrest h5
+    refine ⟨r0 :: rf, All2.cons hb hrf, ?_⟩
     intro tail fs ls
-    simp only [List.cons_append, denoteElems]
-    rw [hden, hrl]
+    rw [List.cons_append]
+    simp only [denoteElems, hd0]
+    rw [hden]
     simp
+end
 
 theorem blocks_denote (o : Opts) : ∀ (ks : List WContainer) (d : List Block) (bseen : List Str), All2 (BlockRel o) ks d → blocksN o ks bseen →
     All2 backBlock ks (denote o.dia o.normKey d) := by
